@@ -4,7 +4,7 @@ d=$(realpath "$1"); prop=$2; tier=${3:-quick}
 cd /repo || exit 2
 if ! git diff --quiet; then echo "/repo dirty"; exit 2; fi
 if ! git apply --check "$d/patch.diff" 2>/dev/null; then
-  if ! git apply --3way "$d/patch.diff" 2>/dev/null; then echo "PATCH DOES NOT APPLY: $d"; git checkout -- . ; exit 3; fi
+  if ! git apply --3way "$d/patch.diff" 2>/dev/null; then echo "PATCH DOES NOT APPLY: $d"; git reset -q --hard HEAD; exit 3; fi
   git reset -q
 else git apply "$d/patch.diff"; fi
 if [ -f "$d/demo.py" ]; then (cd /tmp && PYTHONPATH=/repo /venv/bin/python "$d/demo.py" >/dev/null 2>&1; echo "demo exit (mutated): $?"); fi
